@@ -6,7 +6,6 @@
 #![verifier::allow(autoderive_clone_without_spec)]
 use vstd::prelude::*;
 use vstd::string::StringSliceAdditionalSpecFns;
-use vstd::std_specs::iter::IteratorSpec;
 
 // ---- X3 macro shadows -------------------------------------------------------------------
 // comparison assertions: same truth condition, message formatting dropped
@@ -800,10 +799,10 @@ pub open spec fn vals<T>(s: Seq<&T>) -> Seq<T> { Seq::new(s.len(), |i: int| *s[i
 pub assume_specification<'a, T, P: FnMut(&'a T) -> bool>[ <core::slice::Iter<'a, T> as Iterator>::position::<P> ](it: &mut core::slice::Iter<'a, T>, pred: P) -> (r: Option<usize>) where core::slice::Iter<'a, T>: Sized
     requires forall|x: &'a T| #[trigger] pred.requires((x,)),
     ensures
-        r.is_some() ==> r.unwrap() < old(it).remaining().len()
-            && pred.ensures((&vals(old(it).remaining())[r.unwrap() as int],), true)
-            && forall|i: int| #![trigger vals(old(it).remaining())[i]] 0 <= i < r.unwrap() ==> pred.ensures((&vals(old(it).remaining())[i],), false),
-        r.is_none() ==> forall|i: int| #![trigger vals(old(it).remaining())[i]] 0 <= i < old(it).remaining().len() ==> pred.ensures((&vals(old(it).remaining())[i],), false),
+        r.is_some() ==> r.unwrap() < vstd::std_specs::iter::IteratorSpec::remaining(&*old(it)).len()
+            && pred.ensures((&vals(vstd::std_specs::iter::IteratorSpec::remaining(&*old(it)))[r.unwrap() as int],), true)
+            && forall|i: int| #![trigger vals(vstd::std_specs::iter::IteratorSpec::remaining(&*old(it)))[i]] 0 <= i < r.unwrap() ==> pred.ensures((&vals(vstd::std_specs::iter::IteratorSpec::remaining(&*old(it)))[i],), false),
+        r.is_none() ==> forall|i: int| #![trigger vals(vstd::std_specs::iter::IteratorSpec::remaining(&*old(it)))[i]] 0 <= i < vstd::std_specs::iter::IteratorSpec::remaining(&*old(it)).len() ==> pred.ensures((&vals(vstd::std_specs::iter::IteratorSpec::remaining(&*old(it)))[i],), false),
 ;
 // TRUSTED (X4 targets): `s.iter().all(p)` / `s.iter().any(p)` on a slice. vstd has no specification for them and
 // one cannot be attached (they are overridden in `impl Iterator for slice::Iter`), so the listed call sites are
@@ -919,7 +918,11 @@ impl<'t, 'i> BlockParser<'t, 'i> {
         &&& self.inp().spec_bytes() == the_input()
     }
     /// frame: nothing but `current` and the event queue may change
-    pub open spec fn same(&self, o: &Self) -> bool { self.toks() == o.toks() && self.inp() == o.inp() && self.ext() == o.ext() }
+    #[verifier::prophetic]
+    pub open spec fn same(&self, o: &Self) -> bool { self.toks() == o.toks() && self.inp() == o.inp() && self.ext() == o.ext() && self.fin() == o.fin() }
+    /// the caller's event queue at the moment the block parser gives it back (a prophecy: `events` is a `&mut` borrow of that queue)
+    #[verifier::prophetic]
+    pub closed spec fn fin(&self) -> Seq<Event<'i>> { final(self.events)@ }
     /// offset in the input of the next unparsed token (end of the last parsed one)
     pub open spec fn off(&self) -> int { cur_off(self.toks(), self.cur()) }
     /// the tokens not yet parsed
@@ -932,7 +935,7 @@ spec:
         requires tokens@.len() > 0,   // [C03] block splitter never hands an empty block (parser/mod.rs next_block)
             toks_ok(tokens@), input.spec_bytes() == the_input(),
             tokens@[0].span.s() < blen(input),
-        ensures r.wf(), r.toks() == tokens@, r.cur() == 0, r.inp() == input, r.ext() == extensions, r.evs() == old(events)@
+        ensures r.wf(), r.toks() == tokens@, r.cur() == 0, r.inp() == input, r.ext() == extensions, r.evs() == old(events)@, r.fin() == final(events)@
 before `debug_assert!(`:
         proof { broadcast use axiom_str_len_bound; lemma_mono(tokens@, 0, tokens@.len() - 1); }
 @*/
@@ -952,6 +955,7 @@ spec:
 tags C03 C05
 spec:
         requires self.cur() == self.toks().len()   // [C03] [C05] every token of the block has been parsed
+        ensures self.fin() == self.evs()           // the borrow of the caller's queue ends here
 @*/
 /*@ fn src/parser/block_parser.rs BlockParser::extension
 tags C02
@@ -1636,6 +1640,7 @@ spec:
 
 pub mod step {
 use vstd::prelude::*;
+use vstd::std_specs::iter::IteratorSpec;
 use crate::*;
 use crate::block_parser::BlockParser;
 use crate::parser_ev::{Event, BlockKind};
@@ -2225,6 +2230,8 @@ after `bp.event(Event::End(BlockKind::Step));`:
 @*/
 pub mod parser_fns {
 use vstd::prelude::*;
+use std::collections::VecDeque;
+use std::iter::Peekable;
 use crate::*;
 use crate::block_parser::BlockParser;
 use crate::parser_ev::Event;
@@ -2302,6 +2309,242 @@ after `parse_multiline_block(block);`:
             if pre.toks()[0].kind != TokenKind::TextStep { lemma_covered_from(block.toks(), block.toks().len() as int, block.evs(), mid.evs().len() as int, pre.evs().len() as int); }
         }
 @*/
+// TRUSTED model of std::iter::Peekable (no vstd specification): an iterator like any other (vstd's prophetic iterator
+// laws are assumed for it in PullParser::wf) whose `peek` shows the next item without consuming it
+#[verifier::external_type_specification]
+#[verifier::external_body]
+#[verifier::reject_recursive_types(I)]
+pub struct ExPeekable<I: Iterator>(Peekable<I>);
+pub assume_specification<I: Iterator>[ Peekable::<I>::peek ](p: &mut Peekable<I>) -> (r: Option<&I::Item>)
+    ensures vstd::std_specs::iter::IteratorSpec::remaining(&*final(p)) == vstd::std_specs::iter::IteratorSpec::remaining(&*old(p)),
+        r.is_some() == (vstd::std_specs::iter::IteratorSpec::remaining(&*old(p)).len() > 0),
+        r.is_some() ==> *r.unwrap() == vstd::std_specs::iter::IteratorSpec::remaining(&*old(p))[0],
+        vstd::std_specs::iter::IteratorSpec::obeys_prophetic_iter_laws(&*final(p)) == vstd::std_specs::iter::IteratorSpec::obeys_prophetic_iter_laws(&*old(p)),
+        vstd::std_specs::iter::IteratorSpec::decrease(&*final(p)) == vstd::std_specs::iter::IteratorSpec::decrease(&*old(p));
+
+/*@ type src/parser/mod.rs PullParser
+derive
+attr #[verifier::reject_recursive_types(T)]
+@*/
+/*@ type src/parser/mod.rs LineInfo
+derive
+@*/
+pub open spec fn single_marker(k: TokenKind) -> bool { k == TokenKind::MetadataStart || k == TokenKind::Eq }
+
+impl<'i, T> PullParser<'i, T> where T: Iterator<Item = Token> {
+    /// the tokens not yet pulled from the lexer
+    #[verifier::prophetic]
+    pub closed spec fn rem(&self) -> Seq<Token> { vstd::std_specs::iter::IteratorSpec::remaining(&self.tokens) }
+    pub closed spec fn blk(&self) -> Seq<Token> { self.block@ }
+    #[verifier::prophetic]
+    pub closed spec fn wf(&self) -> bool {
+        &&& vstd::std_specs::iter::IteratorSpec::obeys_prophetic_iter_laws(&self.tokens)
+        &&& vstd::std_specs::iter::IteratorSpec::decrease(&self.tokens).is_some()
+        &&& self.input.spec_bytes() == the_input()
+    }
+    pub closed spec fn fuel(&self) -> nat { vstd::std_specs::iter::IteratorSpec::decrease(&self.tokens).unwrap() }
+    pub closed spec fn ctx_same(&self, o: &Self) -> bool { self.input == o.input && self.extensions == o.extensions && self.old_style_metadata == o.old_style_metadata }
+    /// the events parsed but not yet handed out
+    pub closed spec fn q(&self) -> Seq<Event<'i>> { self.queue@ }
+
+/*@ fn src/parser/mod.rs PullParser::pull_line
+tags C03 C05 C17
+ret r
+desugar_for 0
+spec:
+        requires old(self).wf(),
+        ensures final(self).wf(), final(self).ctx_same(old(self)), final(self).q() == old(self).q(),
+            r.is_none() ==> old(self).rem().len() == 0 && final(self).blk() == old(self).blk() && final(self).rem().len() == 0,
+            r.is_some() ==> ({
+                let n = final(self).blk().len() - old(self).blk().len();
+                &&& 1 <= n <= old(self).rem().len()
+                // [C05] the line is exactly the next n tokens of the stream, appended to the block in order
+                &&& final(self).blk() == old(self).blk() + old(self).rem().subrange(0, n)
+                &&& final(self).rem() == old(self).rem().skip(n)
+                // [C17] it ends at the first newline token (or at the end of the input)
+                &&& Self::no_newline(old(self).rem(), 0, n - 1)
+                &&& (old(self).rem()[n - 1].kind == TokenKind::Newline || n == old(self).rem().len())
+                // progress: a line that ends with a newline used up iterator fuel
+                &&& (old(self).rem()[n - 1].kind == TokenKind::Newline ==> final(self).fuel() < old(self).fuel())
+                // [C17] a line is empty exactly when it holds only whitespace, comments and the newline
+                &&& r.unwrap().is_empty == Self::all_blank(old(self).rem(), 0, n)
+                &&& r.unwrap().is_single_line == single_marker(old(self).rem()[0].kind)
+            }),
+before `for tok in self.tokens.by_ref() {`:
+        let ghost mut n: int = 0;    // tokens taken by this call
+        proof { assert(old(self).rem().skip(0) =~= old(self).rem()); assert(old(self).blk() + old(self).rem().subrange(0, 0) =~= old(self).blk()); }
+loop 0:
+            invariant_except_break
+                forall|j: int| 0 <= j < n ==> (#[trigger] old(self).rem()[j]).kind != TokenKind::Newline,
+                self.rem() == old(self).rem().skip(n),
+                vstd::std_specs::iter::IteratorSpec::decrease(&self.tokens).is_some(), self.fuel() <= old(self).fuel(),
+            invariant
+                vstd::std_specs::iter::IteratorSpec::obeys_prophetic_iter_laws(&self.tokens), self.input.spec_bytes() == the_input(),
+                self.ctx_same(old(self)), self.q() == old(self).q(),
+                0 <= n <= old(self).rem().len(), n == self.blk().len() - old(self).blk().len(),
+                (n > 0) == !no_tokens,
+                self.blk() == old(self).blk() + old(self).rem().subrange(0, n),
+                is_empty == (forall|j: int| 0 <= j < n ==> empty_kind((#[trigger] old(self).rem()[j]).kind)),
+                is_single_line == (old(self).rem().len() > 0 && single_marker(old(self).rem()[0].kind)),
+            ensures
+                self.wf(),
+                forall|j: int| 0 <= j < n - 1 ==> (#[trigger] old(self).rem()[j]).kind != TokenKind::Newline,
+                n > 0 && old(self).rem()[n - 1].kind == TokenKind::Newline ==> self.fuel() < old(self).fuel() && self.rem() == old(self).rem().skip(n),
+                n == 0 || old(self).rem()[n - 1].kind != TokenKind::Newline ==> n == old(self).rem().len() && self.rem().len() == 0,
+            decreases self.fuel()
+loopbody 0:
+            let ghost k = n;
+            proof {
+                let r0 = old(self).rem();
+                assert(r0.skip(k).len() > 0);
+                assert(r0.skip(k).drop_first() =~= r0.skip(k + 1));
+                assert(r0.skip(k)[0] == r0[k]);
+                assert(tok == r0[k]);
+                n = k + 1;
+            }
+after `self.block.push(tok);`:
+            proof { let r0 = old(self).rem(); assert(old(self).blk() + r0.subrange(0, k + 1) =~= (old(self).blk() + r0.subrange(0, k)).push(r0[k])); }
+@*/
+
+    /// C05: what parse_block guarantees about a block `ts`, seen from the owner of the event queue
+    pub open spec fn block_covered(ts: Seq<Token>, newq: Seq<Event<'i>>, oldq: Seq<Event<'i>>) -> bool {
+        &&& ev_grown(newq, oldq)
+        &&& (ts[0].kind != TokenKind::TextStep && !(newq.last() is Section && newq.last()->name.is_none())
+                ==> covered(ts, ts.len() as int, newq, oldq.len() as int))
+    }
+    /// C05/C17: all tokens of s in [a, b) are blank (whitespace, comments, newlines)
+    pub open spec fn all_blank(s: Seq<Token>, a: int, b: int) -> bool { forall|j: int| a <= j < b ==> empty_kind((#[trigger] s[j]).kind) }
+    pub open spec fn no_newline(s: Seq<Token>, a: int, b: int) -> bool { forall|j: int| a <= j < b ==> (#[trigger] s[j]).kind != TokenKind::Newline }
+    /// C05/C17: of the first l tokens of s, [a, b) is the block handed to the block parser
+    pub open spec fn is_block(s: Seq<Token>, a: int, b: int, l: int) -> bool {
+        &&& 0 <= a < b <= l <= s.len()
+        &&& Self::all_blank(s, 0, a) && Self::all_blank(s, b, l)       // nothing but blanks is left out
+        &&& !Self::all_blank(s, a, b)                                  // a block is never blank
+        &&& (a == 0 || s[a - 1].kind == TokenKind::Newline)            // it starts at a line start
+        &&& s[b - 1].kind != TokenKind::Newline                        // trailing newlines are trimmed
+        &&& (single_marker(s[a].kind) ==> Self::no_newline(s, a, b))   // a `>>` / `=` line is a block of its own
+    }
+
+/*@ fn src/parser/mod.rs PullParser::next_block
+tags C03 C05 C17
+ret r
+spec:
+        requires old(self).wf(), toks_ok(old(self).rem()),
+        ensures final(self).wf(), final(self).ctx_same(old(self)),
+            // [C05] the call takes a prefix of the token stream ...
+            final(self).blk().len() <= old(self).rem().len(),
+            final(self).blk() == old(self).rem().subrange(0, final(self).blk().len() as int),
+            final(self).rem() == old(self).rem().skip(final(self).blk().len() as int),
+            // [C05] ... and when it finds no block, everything that was left was blank
+            r.is_none() ==> final(self).rem().len() == 0 && Self::all_blank(old(self).rem(), 0, old(self).rem().len() as int),   // [C05]
+            // [C05] [C17] otherwise the tokens [a, b) went to the block parser (which consumed all of them) and everything else that
+            //              was pulled is blank; the block starts at a line start, is not blank, does not end with a newline, and a
+            //              line that starts with `>>` or `=` is a block of its own
+            r.is_some() ==> exists|a: int, b: int| #[trigger] Self::is_block(old(self).rem(), a, b, final(self).blk().len() as int)   // [C05] [C17]
+                && Self::block_covered(old(self).rem().subrange(a, b), final(self).q(), old(self).q()),    // [C05] the events went to this parser's queue
+            r.is_none() ==> final(self).q() == old(self).q(),
+enter:
+        hide(toks_ok);
+after `self.block.clear();`:
+        let ghost r0 = old(self).rem();
+        let ghost mut ls: int = 0;     // start of the current line inside the block
+        proof { assert(r0.subrange(0, 0) =~= Seq::<Token>::empty()); assert(r0.skip(0) =~= r0); }
+after `let mut current_line = self.pull_line()?;`:
+        proof { assert(Seq::<Token>::empty() + r0.subrange(0, self.blk().len() as int) =~= r0.subrange(0, self.blk().len() as int)); }
+loop 0:
+            invariant self.wf(), self.ctx_same(old(self)), self.q() == old(self).q(), r0 == old(self).rem(), toks_ok(r0),
+                0 <= ls < self.blk().len() <= r0.len(), start == ls,
+                self.blk() == r0.subrange(0, self.blk().len() as int), self.rem() == r0.skip(self.blk().len() as int),
+                Self::all_blank(r0, 0, ls), ls == 0 || r0[ls - 1].kind == TokenKind::Newline,
+                current_line.is_empty == Self::all_blank(r0, ls, self.blk().len() as int),
+                current_line.is_single_line == single_marker(r0[ls].kind),
+                Self::no_newline(r0, ls, self.blk().len() - 1),
+                self.blk()[self.blk().len() - 1] == r0[self.blk().len() - 1],
+                r0[self.blk().len() - 1].kind != TokenKind::Newline ==> self.rem().len() == 0,
+            decreases (if self.blk()[self.blk().len() - 1].kind == TokenKind::Newline { 1nat } else { 0nat }), self.fuel()
+loopbody 0:
+            let ghost len0 = self.blk().len() as int;
+after `current_line = self.pull_line()?;`#1:
+            proof {
+                ls = len0;
+                let n = self.blk().len() - len0;
+                Self::lemma_line(r0, len0);
+            }
+before `let multiline = !current_line.is_single_line;`:
+        let ghost w = choose|w: int| ls <= w < self.blk().len() && !empty_kind((#[trigger] r0[w]).kind);
+loop 1:
+                invariant_except_break
+                    end == self.blk().len(),
+                    r0[self.blk().len() - 1].kind != TokenKind::Newline ==> self.rem().len() == 0,
+                invariant self.wf(), self.ctx_same(old(self)), self.q() == old(self).q(), r0 == old(self).rem(), toks_ok(r0),
+                    ls <= w < end <= self.blk().len() <= r0.len(), start == ls, !empty_kind(r0[w].kind),
+                    self.blk() == r0.subrange(0, self.blk().len() as int), self.rem() == r0.skip(self.blk().len() as int),
+                    Self::all_blank(r0, end as int, self.blk().len() as int),
+                    self.blk()[self.blk().len() - 1] == r0[self.blk().len() - 1],
+                    Self::all_blank(r0, 0, ls), ls == 0 || r0[ls - 1].kind == TokenKind::Newline, !single_marker(r0[ls].kind),
+                decreases (if self.blk()[self.blk().len() - 1].kind == TokenKind::Newline { 1nat } else { 0nat }), self.fuel()
+loopbody 1:
+                proof { Self::lemma_line(r0, self.blk().len() as int); }
+loop 2:
+            invariant ls <= w < end <= self.blk().len() <= r0.len(), start == ls, !empty_kind(r0[w].kind),
+                self.wf(), self.ctx_same(old(self)), self.q() == old(self).q(), r0 == old(self).rem(), toks_ok(r0),
+                self.blk() == r0.subrange(0, self.blk().len() as int), self.rem() == r0.skip(self.blk().len() as int),
+                Self::all_blank(r0, end as int, self.blk().len() as int),
+                Self::all_blank(r0, 0, ls), ls == 0 || r0[ls - 1].kind == TokenKind::Newline,
+                single_marker(r0[ls].kind) ==> Self::no_newline(r0, ls, self.blk().len() - 1),
+            ensures self.blk()[end - 1].kind != TokenKind::Newline,
+            decreases end
+before `let trimmed_block = &self.block[start..end];`:
+        proof {
+            lemma_sub_ok(r0, 0, self.blk().len() as int);
+            lemma_sub_ok(self.blk(), start as int, end as int);
+            lemma_tok(self.blk().subrange(start as int, end as int), 0);
+            broadcast use axiom_str_len_bound;
+            assert(self.blk()[end - 1] == r0[end - 1]);
+            assert(self.blk().subrange(start as int, end as int).last() == self.blk()[end - 1]);
+            assert(self.blk()[end - 1].kind != TokenKind::Newline);
+            assert(!Self::all_blank(r0, start as int, end as int));
+            assert(single_marker(r0[start as int].kind) ==> Self::no_newline(r0, start as int, end as int));
+            assert(Self::is_block(r0, start as int, end as int, self.blk().len() as int));
+        }
+after `let mut bp = BlockParser::new(trimmed_block, self.input, &mut self.queue, self.extensions);`:
+        let ghost bp0 = bp;
+after `parse_block(&mut bp, self.old_style_metadata);`:
+        let ghost bp1 = bp;
+after `bp.finish();`:
+        proof {
+            assert(bp0.evs() == old(self).q()); assert(bp1.fin() == self.q());
+            assert(self.blk().subrange(start as int, end as int) =~= r0.subrange(start as int, end as int));
+            assert(Self::block_covered(r0.subrange(start as int, end as int), self.q(), old(self).q()));
+        }
+@*/
+    /// what one more line means for the caller's bookkeeping over the whole remaining stream `r0` (pull_line speaks about `r0.skip(l)`)
+    pub proof fn lemma_line(r0: Seq<Token>, l: int)
+        requires 0 <= l <= r0.len()
+        ensures
+            forall|n: int| 0 <= n <= r0.len() - l ==> r0.subrange(0, l) + #[trigger] r0.skip(l).subrange(0, n) == r0.subrange(0, l + n),
+            forall|n: int| 0 <= n <= r0.len() - l ==> #[trigger] r0.skip(l).skip(n) == r0.skip(l + n),
+            forall|n: int| 0 <= n <= r0.len() - l ==> #[trigger] Self::all_blank(r0.skip(l), 0, n) == Self::all_blank(r0, l, l + n),
+            forall|n: int| 0 <= n <= r0.len() - l ==> #[trigger] Self::no_newline(r0.skip(l), 0, n) == Self::no_newline(r0, l, l + n),
+    {
+        assert forall|n: int| 0 <= n <= r0.len() - l implies r0.subrange(0, l) + #[trigger] r0.skip(l).subrange(0, n) == r0.subrange(0, l + n) by {
+            assert(r0.subrange(0, l) + r0.skip(l).subrange(0, n) =~= r0.subrange(0, l + n));
+        }
+        assert forall|n: int| 0 <= n <= r0.len() - l implies #[trigger] r0.skip(l).skip(n) == r0.skip(l + n) by {
+            assert(r0.skip(l).skip(n) =~= r0.skip(l + n));
+        }
+        assert forall|n: int| 0 <= n <= r0.len() - l implies #[trigger] Self::all_blank(r0.skip(l), 0, n) == Self::all_blank(r0, l, l + n) by {
+            if Self::all_blank(r0.skip(l), 0, n) { assert forall|j: int| l <= j < l + n implies empty_kind((#[trigger] r0[j]).kind) by { assert(r0.skip(l)[j - l] == r0[j]); } }
+            if Self::all_blank(r0, l, l + n) { assert forall|j: int| 0 <= j < n implies empty_kind((#[trigger] r0.skip(l)[j]).kind) by { assert(r0.skip(l)[j] == r0[l + j]); } }
+        }
+        assert forall|n: int| 0 <= n <= r0.len() - l implies #[trigger] Self::no_newline(r0.skip(l), 0, n) == Self::no_newline(r0, l, l + n) by {
+            if Self::no_newline(r0.skip(l), 0, n) { assert forall|j: int| l <= j < l + n implies (#[trigger] r0[j]).kind != TokenKind::Newline by { assert(r0.skip(l)[j - l] == r0[j]); } }
+            if Self::no_newline(r0, l, l + n) { assert forall|j: int| 0 <= j < n implies (#[trigger] r0.skip(l)[j]).kind != TokenKind::Newline by { assert(r0.skip(l)[j] == r0[l + j]); } }
+        }
+    }
+
+
+}
 } // verus!
 } // mod parser_fns
 
